@@ -34,7 +34,11 @@ func (ir *ifdReader) parseTag(t Tag) {
 		case ifds.Model:
 			ir.Exif.CameraModel, ir.Exif.Model = ir.ParseCameraModel(t)
 		case ifds.Artist:
-			ir.Exif.Artist = ir.ParseString(t)
+			// (an Artist tag without text leaves a name taken from
+			// CameraOwnerName alone, whichever of the two values is read first)
+			if s := ir.ParseString(t); s != "" {
+				ir.Exif.Artist = s
+			}
 		case ifds.Copyright:
 			ir.Exif.Copyright = ir.ParseString(t)
 		case ifds.ImageWidth:
